@@ -564,6 +564,13 @@ export fold_fn = |acc, x|
   emit 3, 40, acc, x
   acc * 3 + key(x)
 
+export mk_fail = |v|
+  |x|
+    emit 3, 10, x
+    if x == v
+      throw 'boom'
+    x
+
 export fold_pair = |acc, x|
   emit 3, 47, acc, x
   (acc, x)
@@ -706,6 +713,9 @@ impl Runtime {
 
 fn classify_error(msg: &str) -> String {
     let first = msg.lines().next().unwrap_or("");
+    if first == "boom" {
+        return "E:thrown".into();
+    }
     if first.contains("chunk size must be at least 1") {
         "E:chunks".into()
     } else if first.contains("window size must be at least 1") {
@@ -735,6 +745,20 @@ struct Case {
     is_copy: bool,
     nontrivial: bool,
     label: String,
+    /// error cases: the innermost `each` callback throws when it sees this value; the event it logs
+    /// just before (see `one`)
+    fail_event: Option<String>,
+}
+
+/// The case with a *throwing* callback: the `each(f_ident)` directly on the source is replaced by
+/// `each(mk_fail(v))`, which logs like `f_ident` and then throws when its argument equals `v`. The
+/// request (and so the model run) stays the non-failing pipeline.
+fn make_fail_case(p: &Pipe, c: &Cons, v: i64) -> Case {
+    let mut k = make_case(p, c);
+    k.script = k.script.replacen(".each(f_ident)", &format!(".each(mk_fail({}))", v), 1);
+    k.fail_event = Some(format!("call,10,i{}", v));
+    k.label = format!("error-case {}", k.label);
+    k
 }
 
 fn make_case(p: &Pipe, c: &Cons) -> Case {
@@ -765,6 +789,7 @@ fn make_case(p: &Pipe, c: &Cons) -> Case {
         is_copy: c.is_copy(),
         nontrivial: p.depth() >= 1 && p.nonempty_source(),
         label: format!("depth={}", p.depth()),
+        fail_event: None,
     }
 }
 
@@ -1181,6 +1206,64 @@ impl Ctx {
             self.rep.sample(json!({"request": c.request, "script": c.script, "impl": {"result": i_res, "trace": i_trace},
                                    "model": {"result": m_res, "trace": m_trace}, "spec": spec}));
         }
+        if let Some(fe) = &c.fail_event {
+            // A callback throws at one element. Every library consumer stops at the first error, so
+            // the property speaks about the run up to that point. If the failing call happened:
+            //  * the events up to and including it must be those of the non-failing run (= the
+            //    model's run of the same pipeline): faithful and lazy up to the error;
+            //  * the result must be the thrown error — the error is not swallowed —, or the whole run
+            //    equals the non-failing one (the failing element was only pulled as lookahead, e.g. by
+            //    intersperse or step, and the consumer finished without ever consuming it).
+            // If the failing element was never reached the run must equal the non-failing one.
+            // What is pulled or yielded *after* the error (lookahead of step, a script that catches
+            // the error and keeps pulling) is not defined by the guide and not checked (requests/C13.md).
+            let impl_ev: Vec<&str> = i_trace.split(';').filter(|e| !e.is_empty()).collect();
+            let model_ev: Vec<&str> = m_trace.split(';').filter(|e| !e.is_empty()).collect();
+            let same_as_nonfailing = i_res == m_res && i_trace == m_trace;
+            let problem = if let Some(idx) = impl_ev.iter().position(|e| e == fe) {
+                self.rep.bump("error_cases_reached");
+                if idx >= model_ev.len() || impl_ev[..=idx] != model_ev[..=idx] {
+                    Some("the events up to the failing call are not those of the non-failing run".to_string())
+                } else if i_res == "E:thrown" {
+                    self.rep.bump("error_cases_thrown");
+                    None
+                } else if same_as_nonfailing {
+                    // legitimate only when the failing output is still waiting in a lookahead slot:
+                    // then nothing more was pulled through the failing callback afterwards
+                    if impl_ev[idx + 1..].iter().any(|e| e.starts_with("call,10,")) {
+                        Some(format!("the callback threw at {} and the pipeline kept pulling past it, but no error was reported (error swallowed)", fe))
+                    } else {
+                        self.rep.bump("error_cases_error_never_consumed");
+                        None
+                    }
+                } else {
+                    Some(format!("the callback threw at {} but the result is {} (neither the error nor the non-failing result)", fe, i_res))
+                }
+            } else {
+                self.rep.bump("error_cases_not_reached");
+                if !same_as_nonfailing {
+                    Some("the failing element was never pulled, yet the run differs from the non-failing one".to_string())
+                } else {
+                    None
+                }
+            };
+            if let Some(pr) = problem {
+                self.d_fail += 1;
+                if std::env::var("C13_DEBUG").is_ok() {
+                    eprintln!("FAIL(error-case) {}\n  impl  {} | {}\n  model {} | {}\n  {}", c.request, i_res, i_trace, m_res, m_trace, pr);
+                }
+                if self.d_fail <= 8 {
+                    self.rep.violation(
+                        "D",
+                        "C13:error-prefix",
+                        json!({"request": c.request, "script": c.script, "fail_event": fe,
+                               "impl": {"result": i_res, "trace": i_trace},
+                               "model_nonfailing": {"result": m_res, "trace": m_trace}, "direct_check": pr}),
+                    );
+                }
+            }
+            return;
+        }
         // (K)
         let k_ok = i_res == m_res && i_trace == m_trace;
         // (D) result against the mathematical definition, trace clauses on the implementation's trace
@@ -1299,6 +1382,7 @@ fn main() {
             is_copy: d["request"].as_str().unwrap_or("").contains("(copy "),
             nontrivial: true,
             label: "replay".into(),
+            fail_event: d["fail_event"].as_str().map(|s| s.to_string()),
         };
         let mut rt = Runtime::new();
         let (r, t) = rt.run(&case.script);
@@ -1381,13 +1465,28 @@ fn main() {
             (Pipe::Intersperse(V::I(0), bx(g(3))), Cons::CopyOps(vec![true; 2], copy_post(false))),
             (Pipe::Src(Src::Tuple(ints(4))), Cons::PeekCopy("pqn".chars().collect(), peek_copy_post(true))),
         ];
-        let arr: Vec<serde_json::Value> = picks
+        let mut arr: Vec<serde_json::Value> = picks
             .iter()
             .map(|(p, c)| {
                 let k = make_case(p, c);
                 json!({"request": k.request, "script": k.script, "host_bytes_back": k.host_bytes_back})
             })
             .collect();
+        // error cases: the callback on the source throws at one element
+        let e = |p: Pipe| Pipe::Each("ident", Box::new(p));
+        let fails: Vec<(Pipe, Cons, i64)> = vec![
+            (Pipe::Windows(2, bx(e(Pipe::Src(Src::Tuple(ints(5)))))), Cons::Simple("tolist"), 12),
+            (Pipe::Chunks(3, bx(e(g(5)))), Cons::Simple("tolist"), 12),
+            (Pipe::Step(2, bx(e(Pipe::Src(Src::Tuple(ints(3)))))), Cons::Simple("tolist"), 11),
+            (Pipe::Skip(2, bx(e(g(3)))), Cons::Simple("count"), 10),
+            (Pipe::Reversed(bx(Pipe::Skip(2, bx(e(Pipe::Src(Src::Tuple(ints(4)))))))), Cons::Simple("tolist"), 11),
+            (Pipe::Zip(bx(Pipe::Intersperse(V::I(0), bx(e(Pipe::Src(Src::Tuple(ints(3))))))), bx(Pipe::Src(Src::Gen(vec![V::I(30), V::I(31), V::I(32)])))), Cons::Simple("tolist"), 12),
+            (Pipe::Take(1, bx(e(g(3)))), Cons::Simple("tolist"), 11),
+        ];
+        for (p, c, v) in &fails {
+            let k = make_fail_case(p, c, *v);
+            arr.push(json!({"request": k.request, "script": k.script, "fail_event": k.fail_event}));
+        }
         println!("{}", serde_json::to_string_pretty(&arr).unwrap());
         return;
     }
@@ -1415,6 +1514,7 @@ fn main() {
                             is_copy: rq.contains("(copy "),
                             nontrivial: true,
                             label: "corpus".into(),
+                            fail_event: c["fail_event"].as_str().map(|s| s.to_string()),
                         });
                     }
                 }
@@ -1584,6 +1684,50 @@ fn main() {
                         ] {
                             if admissible(&p, &c) {
                                 cx.push(make_case(&p, &c));
+                            }
+                        }
+                    }
+                }
+            }
+        }
+    }
+    cx.flush();
+
+    // 2e. error cases: a callback directly on the source throws at element k (k = 0..n; k = n: never);
+    //     every adaptor instance, and ordered pairs of the stateful adaptors, on top of it
+    let err_cons = |n: usize| -> Vec<Cons> {
+        vec![
+            Cons::Simple("tolist"),
+            Cons::Calls(vec![true; n + 2]),
+            Cons::Calls(dirs("nbnbnb")),
+            Cons::Simple("count"),
+            Cons::By("find", "ff"),
+            Cons::SumInit(V::B(Box::new(V::I(0)))),
+        ]
+    };
+    for (kind, flavour) in [(1usize, 0usize), (2, 0), (4, 0), (3, 0), (5, 1)] {
+        for n in [1usize, 2, 3, 5] {
+            for ad in &ads {
+                let p = apply(ad, Pipe::Each("ident", Box::new(Pipe::Src(source(kind, n, flavour, 10)))));
+                for k in 0..=n {
+                    for c in err_cons(n) {
+                        if admissible(&p, &c) {
+                            cx.push(make_fail_case(&p, &c, 10 + k as i64));
+                        }
+                    }
+                }
+            }
+        }
+    }
+    for kind in [1usize, 2] {
+        for n in [3usize, 5] {
+            for a1 in &stateful {
+                for a2 in &stateful {
+                    let p = apply(a2, apply(a1, Pipe::Each("ident", Box::new(Pipe::Src(source(kind, n, 0, 10))))));
+                    for k in 0..n {
+                        for c in [Cons::Simple("tolist"), Cons::SumInit(V::B(Box::new(V::I(0))))] {
+                            if admissible(&p, &c) {
+                                cx.push(make_fail_case(&p, &c, 10 + k as i64));
                             }
                         }
                     }
